@@ -97,7 +97,8 @@ def decode_content(coded, encoding):
     return coded, None      # unknown coding: handed over as is
 
 
-def decode(wire, eof, method='GET'):
+def decode(wire, eof, method='GET', interim=0):
+    """interim: number of interim (1xx) header blocks the sender put before the final response (RFC 7231 6.2)."""
     d = Decoded()
     # ---- head
     lines, rest = split_lines_keepends(wire)
@@ -126,9 +127,9 @@ def decode(wire, eof, method='GET'):
     d.fields = parse_field_lines(head[1:])
     d.header_len = end
     body = wire[end:]
-    if 100 <= d.status < 200 and d.status != 101 and body[:5] == b'HTTP/':
+    if interim > 0 and 100 <= d.status < 200 and d.status != 101:
         # an interim response: the answer to the request is what follows (RFC 7231 6.2)
-        inner = decode(body, eof, method)
+        inner = decode(body, eof, method, interim - 1)
         inner.interim = getattr(inner, 'interim', 0) + 1
         if inner.header_len is not None:
             inner.header_len += end
